@@ -253,7 +253,7 @@ func (ex *Exec) run() (err error) {
 		}
 	}()
 	fn := ex.fn
-	st := &State{ex: ex, sc: newScript(ex.prog.Universe), vals: map[ssa.Value]Term{}, locs: map[ssa.Value]Loc{}, tuples: map[ssa.Value][]Term{}, iters: map[ssa.Value]*MapIter{}, heap: map[string]string{}, fams: map[string]*Family{}, ghost: map[string]Term{}, visited: map[*ssa.BasicBlock]int{}, loopSeen: map[*ssa.BasicBlock]bool{}}
+	st := &State{ex: ex, sc: newScript(ex.prog.Universe), vals: map[ssa.Value]Term{}, locs: map[ssa.Value]Loc{}, tuples: map[ssa.Value][]Term{}, iters: map[ssa.Value]*MapIter{}, heap: map[string]string{}, fams: map[string]*Family{}, ghost: map[string]Term{}, visited: map[*ssa.BasicBlock]int{}, loopSeen: map[*ssa.BasicBlock]bool{}, sliceBase: map[string]sliceBaseInfo{}}
 	st.entry = map[string]string{}
 	ex.newPath(st)
 	st.sc.comment("function %s", ex.key)
@@ -545,7 +545,7 @@ func (st *State) noteTypeID(id int) {}
 func (st *State) stringOfBytes(snap map[string]string, b Term) Term {
 	f := st.elemFam(SInt)
 	s := st.sc.fresh("strof", SStr)
-	st.sc.assert(eq(app(SInt, "str.len", s), slLen(b)))
-	st.sc.emit("(assert (forall ((k Int)) (! (=> (and (<= 0 k) (< k (s-len %[1]s))) (= (str.at %[2]s k) (%[3]s (s-arr %[1]s) (+ (s-off %[1]s) k)))) :pattern ((str.at %[2]s k)))))", b.S, s.S, st.symIn(snap, f.Name))
+	st.sc.assert(eq(app(SInt, "gstr.len", s), slLen(b)))
+	st.sc.emit("(assert (forall ((k Int)) (! (=> (and (<= 0 k) (< k (s-len %[1]s))) (= (gstr.at %[2]s k) %[3]s)) :pattern ((gstr.at %[2]s k)))))", b.S, s.S, st.getElem(snap, f, b, Term{"k", SInt}).S)
 	return s
 }
